@@ -221,10 +221,80 @@ def evaluate(case) -> Result:
         w.close()
 
 
+def install_points():
+    from dv import sched, simkernel as sk
+    mods = sk.load_node()
+    A, N, P = mods["application"].Application, mods["node"].Node, mods["peer"].PeerConnection
+    return sched.install({A.send_answer: None, N.route_answer: None, N.send_message: None,
+                          N._record_answer: None, P.add_out_msg: None})
+
+
+def concurrent_double(decisions, nthreads=2):
+    """Two (three) threads submit an answer for the same request at the same
+    time; one schedule of the exploration."""
+    from dv import sched
+    w = W.NodeWorld(world_cfg({"app_kind": "basic"}))
+    try:
+        w.start()
+        c = w.handshake_in("peer1.example", auth=[4], ip="10.1.1.1", hbh=0x100)
+        w.feed_msg(c, {"k": "REQ", "host": "peer1.example", "hbh": 0xa1, "e2e": 0x5101})
+        rec_ = [r for r in w.requests_seen if r["hbh"] == 0xa1][0]
+        app = w.apps[0]
+        answers = []
+        for i in range(nthreads):
+            a = app.generate_answer(rec_["msg"], result_code=2001 + i * 3011)
+            w._fill_answer(a, rec_["msg"])
+            answers.append(a)
+        ex = sched.Explorer(decisions)
+        sched.attach(w.k, ex)
+        boxes = [w.k.spawn(lambda a=a: app.send_answer(a), name=f"submitter{i}") for i, a in enumerate(answers)]
+        ex.armed = True
+        w.k.run()
+        ex.armed = False
+        w.k.run()
+        frames = [f for f in c.refresh() if not f.is_request and f.code == 272 and f.h["hbh"] == 0xa1]
+        ok_calls = [b for b in boxes if b["done"] and b["exc"] is None]
+        errs = [repr(b["exc"]) for b in boxes if b["exc"] is not None]
+        died = W.monitor_threads(w)
+        return ex.trace, frames, ok_calls, errs, died
+    finally:
+        w.close()
+
+
+def schedule_part(rec, shard, nshards, thorough):
+    from dv import sched
+    from dv.common import fp
+    info = install_points()
+    if shard == 0:
+        rec.extra["preemption_functions"] = info
+    holder = {}
+    for nthreads, bound in ((2, 3 if thorough else 2), (3, 2 if thorough else 1)):
+        def run_one(dec, nthreads=nthreads):
+            holder["last"] = concurrent_double(dec, nthreads)
+            return holder["last"][0]
+        n = 0
+        for dec, trace in sched.enumerate_schedules(run_one, bound, shard, nshards):
+            _, frames, ok_calls, errs, died = holder["last"]
+            case = {"concurrent_submitters": nthreads, "schedule": {str(i): c for i, c in sorted(dec.items())}}
+            if len(frames) > 1:
+                rec.violation("C09/concurrent-double-submission/transmitted-twice", case,
+                              f"{len(frames)} answers on the wire for one request ({[f.brief() for f in frames]}); errors {errs}")
+            elif len(frames) == 1 and len(ok_calls) > 1:
+                rec.violation("C09/concurrent-double-submission/no-error", case, f"{len(ok_calls)} submissions returned normally")
+            elif not frames:
+                rec.violation("C09/concurrent-double-submission/lost", case, f"no answer transmitted; errors {errs}")
+            n += 1
+            rec.case(fp("sched", nthreads, tuple(sorted(dec.items()))) if dec else None,
+                     ["schedule-exploration", f"submitters:{nthreads}", f"deviations:{len(dec)}"],
+                     sample=lambda: dict(case, points=len(trace)))
+        rec.extra[f"schedules_{nthreads}_submitters"] = rec.extra.get(f"schedules_{nthreads}_submitters", 0) + n
+
+
 def shard_main(shard, nshards, tier, scale):
     rec = Recorder(PID)
     thorough = tier == "thorough"
     shrunk = set()
+    schedule_part(rec, shard, nshards, thorough)
     n = int((10000 if thorough else 800) * scale)
     req = st.tuples(st.just("REQ"), st.integers(0, 2), st.integers(0, 2))
     ev = st.one_of(req, req, req, st.tuples(st.just("SUBMIT"), st.integers(0, 3)), st.tuples(st.just("SUBMIT"), st.integers(0, 3)),
@@ -268,11 +338,23 @@ def run(tier, scale=1.0):
     rec = Recorder(PID)
     for d in hyp.pool_run(shard_main, (tier, scale)):
         rec.merge(d)
-    required = {"npeers:3": 1, "app:threading": 1, "fault:eof": 1, "fault:reset": 1, "fault:dpr": 1,
+    required = {"schedule-exploration": 1, "deviations:2": 1, "npeers:3": 1, "app:threading": 1, "fault:eof": 1, "fault:reset": 1, "fault:dpr": 1,
                 "fault:reconnect": 1, "double-submission": 1, "equal-hbh-two-conns": 1, "reqs:4": 1}
     return finish(rec, tier=tier, level="exploration", rule=RULE, assumptions=ASSUME, t0=t0,
                   required_classes=required)
 
 
 def replay(doc):
+    case = doc["case"]
+    if "concurrent_submitters" in case:
+        install_points()
+        dec = {int(i): c for i, c in case["schedule"].items()}
+        _, frames, ok_calls, errs, died = concurrent_double(dec, case["concurrent_submitters"])
+        bad = len(frames) != 1 or len(ok_calls) > 1
+        if bad:
+            print(f"  replayed: {len(frames)} answers on the wire, {len(ok_calls)} submissions succeeded, errors {errs}")
+            print(f"VIOLATION property={PID} replay=(replay)")
+            return 1
+        print(f"[{PID}] replay: does not reproduce")
+        return 0
     return generic_replay(PID, evaluate, doc)
